@@ -176,7 +176,12 @@ func (c *ChangesCursor) Next() error {
 			return fmt.Errorf("diff: %w", err)
 		}
 		if de.NewValue != nil {
-			c.currentRow = de.NewValue.(*v1proto.Row)
+			row := de.NewValue.(*v1proto.Row)
+			if row.Deleted {
+				// not visible in the "to" version; it is reported when from and to are swapped
+				continue
+			}
+			c.currentRow = row
 			c.currentKey = de.Key.(*s3db.Key)
 			return nil
 		}
